@@ -50,6 +50,7 @@ class Case:
     def set_sink_level(self, k, v): self.cmds.append(('setsinklevel', k, v))
     def tick(self, d): self.cmds.append(('tick', d))
     def ctx(self): self.cmds.append(('ctx',))
+    def stop(self, d, n=200): self.cmds.append(('stop', d, n))      # BackendWorker::_exit(), the clock moving d per loop iteration (top level only)
     def poll(self, inj=None): self.cmds.append(('poll', inj or []))   # inj: [(yield, visit, [simple cmds])]
 
     @staticmethod
@@ -67,6 +68,7 @@ class Case:
         if k == 'flushbt': return [12, c[1], c[2], c[3], c[4]]
         if k == 'addfilter': return [13, c[1], c[2]]
         if k == 'shrink': return [14, c[1], c[2]]
+        if k == 'stop': return [15, c[1], c[2]]
         raise ValueError(k)
 
     def line(self):
@@ -160,7 +162,7 @@ def align(case, obs):
                 elif obs[p][0] in ('res', 'cap') and pend:
                     res.append((pend.pop(0), obs[p][1], p))
                 pos = p + 1
-        elif c[0] in ('log', 'resume', 'flush', 'exit', 'initbt', 'flushbt', 'shrink'):
+        elif c[0] in ('log', 'resume', 'flush', 'exit', 'initbt', 'flushbt', 'shrink', 'stop'):
             p = next_res()
             if p < len(obs) and obs[p][0] in ('res', 'cap'):
                 res.append((c, obs[p][1], p)); pos = p + 1
@@ -186,6 +188,7 @@ class Track:
         self.ctx = []        # (pos, n)
         self.exits = []      # (pos, thread)
         self.ctl = []        # (pos, kind, cmd) completed backtrace control requests
+        self.stops = []      # (pos, result code) of stop commands: 1 = the drain loop left through its empty branch
         self.shrinks = []    # (pos, thread, requested capacity, reported capacity or None when the thread was busy)
         self.ok = obs is not None
         if not self.ok: return
@@ -206,7 +209,7 @@ class Track:
             if kind == 'tick': clock += c[1]; return
             if kind == 'setlevel': levels[c[1]] = c[2]; return
             if kind in ('setsinklevel',): return
-            if kind in ('log', 'resume', 'flush', 'exit', 'ctx', 'initbt', 'flushbt', 'shrink'):
+            if kind in ('log', 'resume', 'flush', 'exit', 'ctx', 'initbt', 'flushbt', 'shrink', 'stop'):
                 if k >= len(al) or al[k][0] is not c:
                     return
                 code, pos = al[k][1], al[k][2]; k += 1
@@ -242,6 +245,8 @@ class Track:
                     if t in pending or t in dead: pass
                     elif code == 2: pending[t] = ('ctl', c[2])
                     else: self.ctl.append((pos, kind, c))
+                elif kind == 'stop':
+                    self.stops.append((pos, code))
                 elif kind == 'shrink':
                     self.shrinks.append((pos, c[1], c[2], code if obs[pos][0] == 'cap' else None))
                 elif kind == 'exit':
